@@ -31,6 +31,12 @@ Theorem C06_listed_once : forall e ops, caps_ok e ->
 Proof. exact listed_once_all. Qed.
 Print Assumptions C06_listed_once.
 
+(* a cell only ever lists agents of the history (1 .. nagents) *)
+Theorem C06_only_known_agents : forall e ops a c, caps_ok e ->
+  In a (content (exec e init ops) c) -> in_agents e a = true.
+Proof. exact listed_known. Qed.
+Print Assumptions C06_only_known_agents.
+
 (* the chain of all cells' agent lists (all_cells.agents) has no duplicates *)
 Theorem C06_space_lists_once : forall e ops, caps_ok e -> NoDup (all_agents e (exec e init ops)).
 Proof. exact space_lists_once_all. Qed.
